@@ -466,12 +466,17 @@ class VExec(Exec):
         if callable(clause):
             ctx = SpecCtx(self, env, self.old_env())
             fa = getattr(clause, 'forall', None)
-            if fa is not None:
-                keys = fa(ctx, mode)
-                rs = [clause(ctx, k) for k in keys]
-                rs = [r if isinstance(r, z3.ExprRef) else z3.BoolVal(bool(r)) for r in rs]
-                return z3.And(*rs) if len(rs) != 1 else rs[0]
-            r = clause(ctx)
+            try:
+                if fa is not None:
+                    keys = fa(ctx, mode)
+                    rs = [clause(ctx, k) for k in keys]
+                    rs = [r if isinstance(r, z3.ExprRef) else z3.BoolVal(bool(r)) for r in rs]
+                    return z3.And(*rs) if len(rs) != 1 else rs[0]
+                r = clause(ctx)
+            except (KeyError, AttributeError, IndexError) as e:
+                # the clause talks about a local / loop schema / attribute that the code (as it is now) does not have: the proof does not
+                # carry over to this shape of the function - undecided, never a violation and never an engine failure
+                raise Undecided(f'spec clause {getattr(clause, "__name__", "?")} cannot be evaluated on this shape of the code: {type(e).__name__} {e}')
             return r if isinstance(r, z3.ExprRef) else z3.BoolVal(bool(r))
         return SpecEval(self, env, self.old_env()).boolean(_parse(clause))
 
